@@ -257,6 +257,11 @@ func (t *Dense) Clone() interface{} {
 		if !t.old.IsZero() {
 			retVal.old = t.old.Clone()
 			t.old.CloneTo(&retVal.old)
+			if t.transposeWith != nil {
+				// the axes of the pending transposition go with it: T() needs them to recognise its undo, the
+				// in-place Transpose() to follow the cycles
+				retVal.transposeWith = append(BorrowInts(len(t.transposeWith))[:0], t.transposeWith...)
+			}
 		}
 		copyDense(retVal, t)
 		retVal.lock()
